@@ -51,6 +51,7 @@ class Quiescence(Monitor):
             {
                 "kind": "stuck",
                 "sig": {
+                    "resumed_while_pausing_with_items_in_flight": bool(sim.h.get("resumed_while_pausing_items")),
                     "rerun_default": ri.get("default"),
                     "rerun_had_failed_terminal_task": ri.get("failed_terminal_task"),
                     "rerun_after_fail_command": ri.get("fail_command_terminal"),
